@@ -10,6 +10,7 @@ import (
 	"os"
 	"path/filepath"
 	"sort"
+	"sync/atomic"
 	"time"
 
 	libaudit "github.com/elastic/go-libaudit/v2"
@@ -665,7 +666,20 @@ func check(prop, tier string) int {
 	exhaustive := true
 	var caps []string
 	var perJob []map[string]interface{}
+	// bounded passes first, closures last; once a violation has been reported the jobs not yet started are skipped (a
+	// change that makes the state space explode - a counter in the state - would otherwise run every closure into
+	// its cap): the run is then not exhaustive and says so
+	rank := map[string]int{"scale": 0, "closers": 0, "pileup": 0, "types": 0, "lits": 0, "twins": 1, "dfs": 2, "bfs": 3}
+	sort.SliceStable(jobs, func(a, b int) bool { return rank[jobs[a].(Job).Mode] < rank[jobs[b].(Job).Mode] })
+	var found atomic.Bool
+	skipped := 0
+	par.Skip = func() bool { return found.Load() }
 	par.Map("reasm", jobs, 3*time.Hour, nil, func(r par.Result) {
+		if r.Skipped {
+			skipped++
+			exhaustive = false
+			return
+		}
 		if r.Died {
 			run.Errorf("worker for job %d died: %s", r.Job, tail(r.Stderr, 600))
 			return
@@ -691,6 +705,9 @@ func check(prop, tier string) int {
 		for _, s := range st.Samples {
 			run.Sample(st.Mode + " | " + st.Config + " | " + s)
 		}
+		if len(st.Viol) > 0 {
+			found.Store(true)
+		}
 		for _, v := range st.Viol {
 			run.Report(ev.Violation{
 				Sig:    prop + " " + v.Mon + "/" + v.Sub,
@@ -711,6 +728,9 @@ func check(prop, tier string) int {
 	run.Set("exhaustive", exhaustive)
 	if len(caps) > 0 {
 		run.Set("caps_hit", caps)
+	}
+	if skipped > 0 {
+		run.Set("jobs_skipped_after_first_violation", skipped)
 	}
 	run.Set("explanation", "BFS over canonical keys of (real Reassembler object graph, monitor state) until the frontier empties, successor = replay of the shortest history on a fresh instance + one op; plus every op sequence up to a fixed depth with no state merging; plus a record-type pass. states = distinct canonical states (BFS) + prefixes (DFS); traces_validated_against_impl = executions of the real instrumented code from a fresh instance.")
 	run.Assume("virtual clock behind time.Now (instrumented build); single goroutine")
